@@ -1,7 +1,7 @@
 import RaftProofs.ClusterCommit2O
 
 /-!
-Cluster-level commit safety, part 2P: the hypotheses of the main induction (`Hyp3`), `stabilize`
+Cluster-level commit safety, part 2P: the hypotheses of the main induction (`Hyp3a`), `stabilize`
 completely, and everything the node-level layers say about the commit index and the storage over one
 `call` / `deliver` step of a history (`call_more`).
 -/
@@ -9,19 +9,51 @@ namespace RaftModel
 namespace Cluster
 open Node Raft Raft.CC RaftProps.C02 RaftProps.C05
 
-/-- **the hypotheses of the main induction** on top of `Hyp2` — one more **proof gap**, a fact about
-the messages of the transport that holds in the model but is not derived here, and one more hypothesis
-on the initial state (`snapt0`):
+/-- where a `MsgReadIndexResp` comes from: some node led the message's term at some earlier point, with
+a commit index that covered the message's index -/
+def RirSrc (h : List Sys) (n : Nat) (x : Message) : Prop :=
+  ∃ n0 s0 w stw, n0 ≤ n ∧ h[n0]? = some s0 ∧ s0.node w = some stw ∧ stw.raft.state = .leader ∧
+    stw.raft.term = x.term ∧ x.index ≤ stw.raft.raftLog.committed
+
+/-- **the hypotheses of the main induction** on top of `Hyp2w` — two facts about the messages of the
+transport that the induction uses (both are *derived* from the other hypotheses in
+`RaftProofs/ClusterCommit4L.lean`: `Hyp3w → Hyp3a`), and one hypothesis on the initial state
+(`snapt0`):
 * `anch`: a `MsgAppend` is anchored inside its sender's log (`log_term ≠ 0` unless the anchor is the
-  common snapshot point) — follows from `next_idx ≤ last_index + 1` for every progress of a leader
-  (`ProgressOk` of C13b, whose cluster-level invariant is not proved);
+  common snapshot point) — follows from `next_idx ≤ last_index + 1` for every progress of a leader;
+* `rirs`: a `MsgReadIndexResp` was sent by a leader of its term whose commit index covered its index —
+  follows from "every pending read index is at most the commit index";
 * `snapt0` (a hypothesis on the initial state, like `InitOk`'s bound on the terms of the initial
   entries): the term an initial storage records for the common snapshot point `c0` is not above the
   initial term of any node. -/
+structure Hyp3a (cfg : JointConfig) (c0 : Nat) (h : List Sys) : Prop extends Hyp2w cfg c0 h where
+  anch : ∀ s ∈ h, ∀ x ∈ s.net, x.msgType = .msgAppend → x.logTerm ≠ 0 ∨ x.index ≤ c0
+  rirs : ∀ n s, h[n]? = some s → ∀ x ∈ s.net, x.msgType = .msgReadIndexResp → RirSrc h n x
+  snapt0 : ∀ s0, h[0]? = some s0 → ∀ i sti, s0.node i = some sti → ∀ t0,
+    sti.raft.raftLog.abs.snapTerm = some t0 → ∀ j stj, s0.node j = some stj → t0 ≤ stj.raft.term
+
+/-- **the hypotheses of the commit layer without proof gaps about the transport**: `Hyp2w` and the
+hypothesis `snapt0` on the initial state (`anch` and `rirs` of `Hyp3a` are derived) -/
+structure Hyp3w (cfg : JointConfig) (c0 : Nat) (h : List Sys) : Prop extends Hyp2w cfg c0 h where
+  snapt0 : ∀ s0, h[0]? = some s0 → ∀ i sti, s0.node i = some sti → ∀ t0,
+    sti.raft.raftLog.abs.snapTerm = some t0 → ∀ j stj, s0.node j = some stj → t0 ≤ stj.raft.term
+
+/-- the hypotheses of the commit layer as first stated (`RaftProps/C01c.lean`), with the two former
+proof gaps `norir` (in `Hyp2`) and `anch` -/
 structure Hyp3 (cfg : JointConfig) (c0 : Nat) (h : List Sys) : Prop extends Hyp2 cfg c0 h where
   anch : ∀ s ∈ h, ∀ x ∈ s.net, x.msgType = .msgAppend → x.logTerm ≠ 0 ∨ x.index ≤ c0
   snapt0 : ∀ s0, h[0]? = some s0 → ∀ i sti, s0.node i = some sti → ∀ t0,
     sti.raft.raftLog.abs.snapTerm = some t0 → ∀ j stj, s0.node j = some stj → t0 ≤ stj.raft.term
+
+theorem Hyp3.toHyp3a {cfg : JointConfig} {c0 : Nat} {h : List Sys} (H : Hyp3 cfg c0 h) :
+    Hyp3a cfg c0 h :=
+  { toHyp2w := H.toHyp2.toHyp2w, anch := H.anch, snapt0 := H.snapt0,
+    rirs := fun n s hn x hx hty =>
+      absurd hty (H.norir s (List.mem_iff_getElem?.2 ⟨n, hn⟩) x hx) }
+
+theorem Hyp3.toHyp3w {cfg : JointConfig} {c0 : Nat} {h : List Sys} (H : Hyp3 cfg c0 h) :
+    Hyp3w cfg c0 h :=
+  { toHyp2w := H.toHyp2.toHyp2w, snapt0 := H.snapt0 }
 
 /-- **`stabilize`**: nothing is left unstable, term and vote are in the storage; role, term, queue,
 logical log and cursors are untouched -/
@@ -54,7 +86,7 @@ theorem stabilize_out {st st' : NState} {rnd : Option Nat} {res : OpRes}
 variable {cfg : JointConfig} {c0 : Nat} {h : List Sys}
 
 /-- the term recorded for the snapshot point never changes -/
-theorem snapTerm_const (H : Hyp2 cfg c0 h) : ∀ (n : Nat) (s : Sys), h[n]? = some s →
+theorem snapTerm_const (H : Hyp2w cfg c0 h) : ∀ (n : Nat) (s : Sys), h[n]? = some s →
     ∀ v st, s.node v = some st → ∃ s0 st0, h[0]? = some s0 ∧ s0.node v = some st0 ∧
       st.raft.raftLog.abs.snapTerm = st0.raft.raftLog.abs.snapTerm := by
   refine hist_induct h _ ?_ ?_
@@ -74,17 +106,22 @@ theorem snapTerm_const (H : Hyp2 cfg c0 h) : ∀ (n : Nat) (s : Sys), h[n]? = so
       rfl
 
 /-- the term of the common snapshot point is not above the initial term of any node, in every state -/
-theorem Hyp3.snapt (H : Hyp3 cfg c0 h) : ∀ s ∈ h, ∀ i st, s.node i = some st → ∀ t0,
+theorem Hyp3a.snapt (H : Hyp3a cfg c0 h) : ∀ s ∈ h, ∀ i st, s.node i = some st → ∀ t0,
     st.raft.raftLog.abs.snapTerm = some t0 →
     ∀ s0, h[0]? = some s0 → ∀ j st0, s0.node j = some st0 → t0 ≤ st0.raft.term := by
   intro s hs i st hi t0 ht0 s0 h0 j st0 hj
   obtain ⟨n, hn⟩ := List.mem_iff_getElem?.1 hs
-  obtain ⟨s0', sti, h0', hi0, he⟩ := snapTerm_const H.toHyp2 n s hn i st hi
+  obtain ⟨s0', sti, h0', hi0, he⟩ := snapTerm_const H.toHyp2w n s hn i st hi
   rw [h0] at h0'; cases h0'
   exact H.snapt0 s0 h0 i sti hi0 t0 (by rw [← he]; exact ht0) j st0 hj
 
+theorem Hyp3.snapt (H : Hyp3 cfg c0 h) : ∀ s ∈ h, ∀ i st, s.node i = some st → ∀ t0,
+    st.raft.raftLog.abs.snapTerm = some t0 →
+    ∀ s0, h[0]? = some s0 → ∀ j st0, s0.node j = some st0 → t0 ≤ st0.raft.term :=
+  H.toHyp3a.snapt
+
 /-- the commit index and the storage over one `call` / `deliver` step of the history -/
-theorem call_more (H : Hyp2 cfg c0 h) {n : Nat} {a : Sys} {i : Nat} {st st' : NState}
+theorem call_more (H : Hyp2w cfg c0 h) {n : Nat} {a : Sys} {i : Nat} {st st' : NState}
     {rnd : Option Nat} {op : NodeOp} {res : OpRes}
     (ha : h[n]? = some a) (hi : a.node i = some st)
     (hop : appOp op = true ∨ ∃ m, op = .step m ∧ m ∈ a.net ∧ m.to = i)
